@@ -2920,6 +2920,10 @@ func (s *ImmuStore) ReplicateTx(ctx context.Context, exportedTx []byte, skipInte
 			i += mdLen
 		}
 
+		if len(exportedTx) < i+lszSize {
+			return nil, ErrIllegalArguments
+		}
+
 		// value
 		vLen := int(binary.BigEndian.Uint32(exportedTx[i:]))
 		i += lszSize
@@ -2941,6 +2945,10 @@ func (s *ImmuStore) ReplicateTx(ctx context.Context, exportedTx []byte, skipInte
 
 	// check if there is truncated value information in the transaction
 	if i < len(exportedTx) {
+		if len(exportedTx) < i+sszSize {
+			return nil, ErrIllegalArguments
+		}
+
 		// information for truncated value
 		tLen := int(binary.BigEndian.Uint16(exportedTx[i:]))
 		i += sszSize
@@ -2954,7 +2962,7 @@ func (s *ImmuStore) ReplicateTx(ctx context.Context, exportedTx []byte, skipInte
 		if len(v) > 0 && v[0] > 1 {
 			return nil, ErrIllegalTruncationArgument
 		}
-		isTruncated = v[0] == 1
+		isTruncated = len(v) > 0 && v[0] == 1
 		i += tLen
 	}
 
